@@ -854,6 +854,87 @@ standin_multi_moment_gauges.prop = "C06"
 STANDINS.append(standin_multi_moment_gauges)
 
 
+def standin_pasqal_moment_split(tier, seed):
+    """cirq_pasqal.split_multi_op_moments (the last step of PasqalGateset): moments holding gates next to measurements of every kind (plain, Pauli
+    products, wrapped in a sub-circuit) and operations controlled by a key measured in the same moment: no operation is lost, every output
+    moment holds one non-measurement operation or plain measurements only, the records keep their distribution"""
+    import collections
+
+    import cirq
+
+    F_ = "cirq-pasqal/cirq_pasqal/pasqal_gateset.py:split_multi_op_moments"
+    try:
+        from cirq_pasqal.pasqal_gateset import split_multi_op_moments
+    except ImportError:
+        return dict(function=F_, case="pasqal-moment-split", bound="cirq_pasqal not importable", cases=0, distinct=0, failures=0, exhaustive=False, _fails=[])
+    rng = random.Random(seed + 421)
+    q = cirq.LineQubit.range(4)
+    cases, fails = 0, []
+    _flat_keep = lambda op: not isinstance(op.untagged, cirq.CircuitOperation) and not isinstance(op.gate, cirq.PauliMeasurementGate)
+    for trial in range(40 if tier == "quick" else 400):
+        moments = [cirq.Moment(cirq.H(q[0]), cirq.X(q[1]) ** rng.choice([1, 0.5]), cirq.H(q[3]))]
+        nkeys = 0
+        for _m in range(rng.randrange(1, 4)):
+            free = list(q)
+            rng.shuffle(free)
+            ops_ = []
+            kind = rng.randrange(5)
+            x = free.pop()
+            nkeys += 1
+            key = f"k{nkeys}"
+            if kind == 0:
+                ops_.append(cirq.measure(x, key=key))
+            elif kind == 1:
+                y = free.pop()
+                ops_.append(cirq.measure_single_paulistring(cirq.X(x) * cirq.Z(y), key=key))
+            elif kind == 2:
+                ops_.append(cirq.CircuitOperation(cirq.FrozenCircuit(cirq.measure(x, key=key))))
+            elif kind == 3:
+                ops_.append(cirq.measure(x, key=key))
+                ops_.append(cirq.X(free.pop()).with_classical_controls(key))      # reads the key measured in this very moment
+            else:
+                ops_.append(cirq.measure(x, key=key, invert_mask=(True,)))
+                if free:
+                    nkeys += 1
+                    ops_.append(cirq.measure(free.pop(), key=f"k{nkeys}"))
+            for y in free:
+                if rng.random() < 0.6:
+                    ops_.append(rng.choice([cirq.H, cirq.X, cirq.Z ** 0.5])(y))
+            rng.shuffle(ops_) if kind != 3 else None
+            moments.append(cirq.Moment(ops_))
+        moments.append(cirq.Moment(cirq.measure(*q, key="final")))
+        c = cirq.Circuit(moments)
+        cases += 1
+        args = dict(circuit=repr(c)[:1500])
+        try:
+            out = split_multi_op_moments(c)
+        except Exception as ex:
+            fails.append(dict(args=args, failed="pasqal-split-raised", clause=f"{ex!r}"))
+            continue
+        args["output"] = repr(out)[:1200]
+        if collections.Counter(out.all_operations()) != collections.Counter(c.all_operations()):
+            fails.append(dict(args=args, failed="pasqal-split-lost-operation", clause="split_multi_op_moments lost or duplicated an operation"))
+            continue
+        shape_ok = all(len(m) == 1 or all(isinstance(op.gate, cirq.MeasurementGate) for op in m) for m in out)
+        if not shape_ok:
+            fails.append(dict(args=args, failed="pasqal-split-shape", clause="an output moment holds several operations that are not all plain measurements"))
+            continue
+        try:
+            want = refsim.ref_distribution(cirq.Circuit(cirq.decompose(c, keep=_flat_keep, on_stuck_raise=None)), list(q))
+            got = refsim.ref_distribution(cirq.Circuit(cirq.decompose(out, keep=_flat_keep, on_stuck_raise=None)), list(q))
+        except refsim.ControlBeforeMeasurement as ex:
+            fails.append(dict(args=args, failed="pasqal-split-meaning", clause=f"the split circuit is not a valid program: {ex}"))
+            continue
+        if not refsim.dist_close(got, want, atol=1e-6):
+            fails.append(dict(args=args, failed="pasqal-split-meaning", clause="split_multi_op_moments changed the distribution of the records"))
+        if len(fails) >= 3:
+            break
+    return dict(function=F_, case="pasqal-moment-split", bound="seeded circuits on 4 qubits: 1-3 mixed moments (plain / inverted / Pauli-product / sub-circuit measurements, a control on a key measured in the same moment) between a preparation and a final measurement",
+                cases=cases, distinct=cases, failures=len(fails), exhaustive=False, _fails=fails[:3])
+standin_pasqal_moment_split.prop = "C06"
+STANDINS.append(standin_pasqal_moment_split)
+
+
 def standin_vendor_special_cases(tier, seed):
     """optimize_for_target_gateset with the vendors' target gatesets on gates they special-case (shared with C07: the compiled circuit means the same)"""
     from contracts.C07_compile import standin_known_ops as f
